@@ -97,6 +97,10 @@ class Highlighter(object):
 
             if token_type == tokenize.ENDMARKER:
                 # End of source
+                if current_type is None:
+                    # No token at all: the source is empty or unavailable
+                    current_type = self.TOKEN_DEFAULT
+
                 line += "<{}>{}</>".format(self._theme[current_type], buffer)
                 lines.append(line)
                 break
